@@ -106,7 +106,11 @@ fn gen_c06(c: &mut Choices) -> Case {
             // the parameter itself is (re)assigned its own value, so that a copy captured at the
             // head of the body is not stale (a changing value / a `const pz` in the body would
             // be the known D11 shape)
-            let tpl = match g.c.pick(5) {
+            let tpl = match g.c.pick(7) {
+                // a nested statement list after the site: the pending copy belongs to the
+                // function body, not to the block
+                5 => format!("export function thunk{n}(pz = y) {{\n  pz = pz;\n  const r = @H@;\n  if (b1) {{\n    f1();\n  }}\n  return r;\n}}"),
+                6 => format!("export const thunk{n} = (pz = x) => {{\n  pz = pz;\n  const r = [@H@];\n  {{\n    f2(y);\n  }}\n  return r;\n}};"),
                 0 => format!("export const thunk{n} = (pz = x) => (pz = pz, @H@);"),
                 1 => format!("export function thunk{n}(pz = y) {{\n  pz = pz;\n  return @H@;\n}}"),
                 2 => format!("export const thunk{n} = (pz = x) => {{\n  pz = pz;\n  return [@H@];\n}};"),
